@@ -672,3 +672,62 @@ mod tests {
         assert!(result.is_err())
     }
 }
+
+/// Verification hooks (feature `strand_verif` only): safe-prime parameter sets
+/// chosen by a const generic (`p = 2q + 1`, generator 4, cofactor 2) that
+/// instantiate the same generic code as `P2048`, and raw constructors /
+/// accessors for the wrapper types.
+#[cfg(feature = "strand_verif")]
+pub mod verif {
+    use super::*;
+
+    #[derive(Eq, PartialEq, Clone, Debug)]
+    pub struct VP<const MODULUS: u64> {
+        generator: BigUintE<Self>,
+        modulus: BigUintE<Self>,
+        exp_modulus: BigUintX<Self>,
+        co_factor: BigUint,
+    }
+
+    impl<const MODULUS: u64> BigintCtxParams for VP<MODULUS> {
+        fn generator(&self) -> &BigUintE<Self> {
+            &self.generator
+        }
+        fn modulus(&self) -> &BigUintE<Self> {
+            &self.modulus
+        }
+        fn exp_modulus(&self) -> &BigUintX<Self> {
+            &self.exp_modulus
+        }
+        fn co_factor(&self) -> &BigUint {
+            &self.co_factor
+        }
+        fn new() -> Self {
+            VP {
+                generator: BigUintE::new(BigUint::from(4u32)),
+                modulus: BigUintE::new(BigUint::from(MODULUS)),
+                exp_modulus: BigUintX::new(BigUint::from((MODULUS - 1) / 2)),
+                co_factor: BigUint::from(2u32),
+            }
+        }
+    }
+
+    pub fn e_raw<P: BigintCtxParams>(v: BigUint) -> BigUintE<P> {
+        BigUintE::new(v)
+    }
+    pub fn x_raw<P: BigintCtxParams>(v: BigUint) -> BigUintX<P> {
+        BigUintX::new(v)
+    }
+    pub fn p_raw(v: BigUint) -> BigUintP {
+        BigUintP(v)
+    }
+    pub fn e_val<P: BigintCtxParams>(e: &BigUintE<P>) -> &BigUint {
+        &e.0
+    }
+    pub fn x_val<P: BigintCtxParams>(x: &BigUintX<P>) -> &BigUint {
+        &x.0
+    }
+    pub fn p_val(p: &BigUintP) -> &BigUint {
+        &p.0
+    }
+}
